@@ -17,10 +17,14 @@ package object
 // has no decreases clause across dynamic dispatch); sets hold only hashable values and cannot be cyclic.
 
 //@ func (*List).Equals
-//@ props C03
+//@ props C03 C15 C16
 //@ requires ls != nil
 //@ callpre[C03.cycle.guard] Equals: ls.compareActive && !old(ls.compareActive)
 //@ ensures[C03.cycle.restore] ls.compareActive == old(ls.compareActive)
+// C15 / C16: comparing is read-only - it leaves no mark on its operand that could change the answer of a later
+// comparison (seed C16f cleared the marker only on the path that compared every item).
+//@ ensures[C15.eq.readonly] ls.compareActive == old(ls.compareActive)
+//@ ensures[C16.eq.readonly] ls.compareActive == old(ls.compareActive)
 
 //@ func (*List).Compare
 //@ props C03 C15
@@ -42,10 +46,17 @@ package object
 //@ ensures[C03.cycle.restore] ls.convertActive == old(ls.convertActive)
 
 //@ func (*Map).Equals
-//@ props C03
+//@ props C03 C15 C16
 //@ requires m != nil
 //@ callpre[C03.cycle.guard] Equals: m.compareActive && !old(m.compareActive)
 //@ ensures[C03.cycle.restore] m.compareActive == old(m.compareActive)
+//@ ensures[C15.eq.readonly] m.compareActive == old(m.compareActive)
+//@ ensures[C16.eq.readonly] m.compareActive == old(m.compareActive)
+// C15: maps that compare equal have the same keys: every key of the receiver is a key of the other map (with equal
+// sizes, checked first, the key sets coincide). A key that the other map lacks is not "present with value nil"
+// (seed C15e looked the other value up with Get, which answers Nil for a missing key).
+//@ invariant 1: m.compareActive && forallA(k, string, seen(k) ==> haskey(other.(*Map).items, k))
+//@ ensures[C15.map.eq.keys] typeof(other) == *Map && !old(m.compareActive) && result == True ==> forallA(k, string, haskey(m.items, k) ==> haskey(other.(*Map).items, k))
 
 //@ func (*Map).Interface
 //@ props C03
